@@ -112,7 +112,25 @@ def h_map_tensor(wp, n, args, callee):
     return V(wp.tmp_name('view'), 'View', {'buf': p.c, 'off': p.t, 'dims': dims})
 
 
+def ptr_decl_hook(wp, v, init):
+    """a local of pointer type (`auto* first = x.data() + k;`) or a local view (`auto view = map_tensor(..); return view;`): the value of its initialiser"""
+    if v.get('kind') != 'VarDecl' or len(init) != 1:
+        return False
+    q = nvwp.qual(v.get('type')).replace('const', '').strip()
+    if not (q.endswith('*') or re.search(r'tensor_c?map_t<|tensor_(c|m)array_storage_t', q)):
+        return False
+    val = wp.ev(init[0])
+    if val.s not in ('Ptr', 'View'):
+        raise Unsupported(f'{wp.name}: local {v["name"]} of type {q} initialised by a value of sort {val.s}')
+    wp.env[v['name']] = val
+    return True
+
+
 class PartWP(IdEnvWP):
+    def __init__(self, *a, **kw):
+        super().__init__(*a, **kw)
+        self.decl_hooks = (ptr_decl_hook,) + tuple(self.decl_hooks)
+
     def tmp_name(self, hint):
         self.n += 1
         return f'{hint}!{self.n}'
@@ -222,6 +240,43 @@ def called_by_do_vgrad():
     return out
 
 
+def predict_args_vc():
+    """data flow from the accessors into the chunk task (read off clang's declaration ids): the one call linear::predict(inputs, W, b, outputs) of
+    do_vgrad's lambda receives, as 2nd / 3rd argument, locals initialised by weights(<parameter 0>) / bias(<parameter 0>) -- the views of the
+    parameter vector x, not of the gradient buffer (the task contract linear_task takes W and b as given)"""
+    from cxx2c import unwrap
+    do = astload.find_definition(LTU, FLT, 'do_vgrad')
+    params = [c.get('id') for c in do['inner'] if c['kind'] == 'ParmVarDecl']
+
+    def core_of(n):
+        u = unwrap(n)
+        while u.get('kind') in ('MaterializeTemporaryExpr', 'ExprWithCleanups', 'CXXBindTemporaryExpr', 'CXXConstructExpr', 'ImplicitCastExpr') and len(u.get('inner', [])) == 1:
+            u = unwrap(u['inner'][0])
+        return u
+    origin = {}
+    for v in astload.walk(do):
+        if v.get('kind') == 'VarDecl' and v.get('inner'):
+            u = core_of(v['inner'][-1])
+            if u.get('kind') == 'CXXMemberCallExpr' and u['inner'][0].get('name') in ('bias', 'weights') and len(u['inner']) == 2:
+                a = core_of(u['inner'][1])
+                rid = (a.get('referencedDecl') or {}).get('id')
+                origin[v.get('id')] = (u['inner'][0]['name'], params.index(rid) if rid in params else None)
+    calls = [n for lam in astload.find_lambdas(do) for n in astload.walk(lam)
+             if n.get('kind') == 'CallExpr' and (core_of(n['inner'][0]).get('referencedDecl') or {}).get('name') == 'predict']
+    uniq = {}
+    for n in calls:       # clang prints a lambda body twice (under the closure class and under the LambdaExpr): one call = one source range
+        uniq.setdefault(repr(n.get('range')), n)
+    calls = list(uniq.values())
+    seen = []
+    for n in calls:
+        args = [core_of(a) for a in n['inner'][1:]]
+        seen.append([origin.get((a.get('referencedDecl') or {}).get('id')) for a in args])
+    ok = len(calls) == 1 and len(seen[0]) == 4 and seen[0][1] == ('weights', 0) and seen[0][2] == ('bias', 0)
+    smt = nvwp.PRELUDE + f'(assert (not {"true" if ok else "false"}))\n(check-sat)\n'
+    return VC(f'linear_parts/predict_args: the chunk task predicts with W = weights(x) and b = bias(x) of the parameter vector x (found: {seen})', smt,
+              about='data flow from the accessors into linear::predict', source={'file': astload.REPO + '/' + LTU})
+
+
 def vcs():
     out, seen, fns, walked = [], set(), [], {}
     want = {(nm, c, s) for nm in ('weights', 'bias') for c in (True, False) for s in ('vec', 'map', 'cmap')}
@@ -247,4 +302,55 @@ def vcs():
     out.append(VC('linear_parts/called_under_contract: every weights / bias call of do_vgrad resolves to an instantiation walked above '
                   f'({len(called)} calls: {", ".join(nm + ":" + str(walked.get((d or {}).get("mangledName"))) for nm, d in called)})', smt,
                   about='the accessors do_vgrad calls are the ones under contract', source={'file': astload.REPO + '/' + LTU}))
+    out.append(predict_args_vc())
     return out + lemma_vcs(), fns
+
+
+# ------------------------------------------------------------------------------------------------ alpha-renaming for the walkers of do_vgrad
+def canon_do_vgrad(fn):
+    """a copy of the AST of linear::function_t::do_vgrad in which the locals that are initialised by an accessor call are NAMED by what
+    they are -- bias(<param 0>) -> b, weights(<param 0>) -> W, bias(<param 1>) -> gb, weights(<param 1>) -> gW --, the parameters x / gx by
+    position (renaming of declarations and of every reference to them by clang's declaration id:
+    alpha-conversion).  The walkers reg_smt / reg_generic identify these objects by name; with this step a renamed local is no longer an
+    extraction break, and a local that is NOT initialised by the accessor it is named after no longer passes for it."""
+    import copy
+    from cxx2c import unwrap
+    fn = copy.deepcopy(fn)
+    params = [c for c in fn['inner'] if c['kind'] == 'ParmVarDecl']
+    ren = {}
+    if len(params) == 2:
+        ren[params[0].get('id')] = 'x'
+        ren[params[1].get('id')] = 'gx'
+    pos = {params[k].get('id'): k for k in range(len(params))}
+
+    def core_of(n):
+        u = unwrap(n)
+        while u.get('kind') in ('MaterializeTemporaryExpr', 'ExprWithCleanups', 'CXXBindTemporaryExpr', 'CXXConstructExpr', 'ImplicitCastExpr') and len(u.get('inner', [])) == 1:
+            u = unwrap(u['inner'][0])
+        return u
+    for v in astload.walk(fn):
+        if v.get('kind') != 'VarDecl' or not v.get('inner'):
+            continue
+        u = core_of(v['inner'][-1])
+        if u.get('kind') == 'CXXMemberCallExpr' and u['inner'][0].get('kind') == 'MemberExpr' and u['inner'][0].get('name') in ('bias', 'weights') \
+                and unwrap(u['inner'][0]['inner'][0]).get('kind') == 'CXXThisExpr' and len(u['inner']) == 2:
+            a = core_of(u['inner'][1])
+            k = pos.get((a.get('referencedDecl') or {}).get('id')) if a.get('kind') == 'DeclRefExpr' else None
+            if k is None:
+                raise astload.ExtractionError(f'do_vgrad: {u["inner"][0]["name"]}(..) of something that is not a parameter')
+            ren[v.get('id')] = {('bias', 0): 'b', ('weights', 0): 'W', ('bias', 1): 'gb', ('weights', 1): 'gW'}[(u['inner'][0]['name'], k)]
+    taken = {}
+    for i, nm in ren.items():
+        if nm in taken:
+            raise astload.ExtractionError(f'do_vgrad: two locals are both {nm}')
+        taken[nm] = i
+    for n in astload.walk(fn):
+        if n.get('kind') in ('VarDecl', 'ParmVarDecl'):
+            if n.get('id') in ren:
+                n['name'] = ren[n['id']]
+            elif n.get('name') in taken:
+                raise astload.ExtractionError(f'do_vgrad: the local {n["name"]!r} is not what its name says (not initialised by the accessor call)')
+        rd = n.get('referencedDecl')
+        if isinstance(rd, dict) and rd.get('id') in ren:
+            rd['name'] = ren[rd['id']]
+    return fn
